@@ -195,6 +195,18 @@ func (d *driver) decodeInput(c *decCase, i int) []byte {
 			return mk(x, new(big.Int).Sub(modP, y))
 		}
 		return mk(x, y)
+	case "plimbs": // x = every pattern of (limb of p) - 1 / equal / + 1: the canonical-x comparison limb by limb
+		x := limbPattern(modP, patOf(i))
+		return mk(x, yOf(x))
+	case "ypat": // the canonical y = a pattern of limbs around (p-1)/2 (top limb equal), the first valid point at or after it
+		half := new(big.Int).Rsh(new(big.Int).Sub(modP, one), 1)
+		y0 := limbPattern(half, "e"+patOf(i)[1:])
+		x, y := pointFromY(y0, 1, i%2 == 1)
+		if y.Cmp(half) <= 0 {
+			y.Sub(modP, y)
+			x = subm(big.NewInt(0), x)
+		}
+		return mk(x, y)
 	case "crossfmt": // a VALID encoding in the other format: 64 bytes x || y for the compressed decoders, 32 bytes x for the uncompressed one
 		x := findX(p, "valid")
 		if unc {
